@@ -52,7 +52,7 @@ func fastCall(e *asm.Emitter, m *emMethod) func(arg uint32) {
 }
 
 func C03(r *vf.Run) {
-	r.Rule = "every instruction-emitting method of *asm.Emitter (enumerated by reflection, matched against a hand-written method->(mnemonic, mode, operand kind, width guard) table) x every legal tracked width state x operand sweep: exhaustive for 8/16-bit operands and int8 displacements, 24-bit operands: all 2^24 in one width state and all low words x 8 banks + random in the other three (quick), all 2^24 in every state (thorough). Appended bytes are compared with an independent encoder, Len()/PC() advance with the architectural length, and the bytes are decoded back by the model decoder and (sampled) by both library CPUs (disassembly byte count + mnemonic, Step PC advance). The same law is re-checked inside generated call histories (what a call appends must not depend on what precedes it). A cell is (method, width state, operand class)"
+	r.Rule = "every instruction-emitting method of *asm.Emitter (enumerated by reflection, matched against a hand-written method->(mnemonic, mode, operand kind, width guard) table) x every legal tracked width state x operand sweep: exhaustive for 8/16-bit operands and int8 displacements, 24-bit operands: all 2^24 in one width state and all low words x 8 banks + random in the other three (quick), all 2^24 in every state (thorough). Appended bytes are compared with an independent encoder, Len()/PC() advance with the architectural length, and the bytes are decoded back by the model decoder and (sampled) by both library CPUs (disassembly byte count + mnemonic, Step PC advance). The same law is checked where the target buffer ends (0..size+1 free bytes: whole encoding or nothing) and re-checked inside generated call histories (what a call appends must not depend on what precedes it). A cell is (method, width state, operand class)"
 	r.Assume = []string{"opcode matrix and length rule of /verif/internal/ref; the method table in /verif/props/emit.go is the 'named after' relation"}
 
 	unmapped, missing := unmappedEmitterMethods()
@@ -217,6 +217,72 @@ func C03(r *vf.Run) {
 		r.Sample(map[string]interface{}{"method": "MVN", "dest,src": "$7e,$00", "bytes": "54 7e 00"})
 	}
 
+	if r.Phase("at-buffer-end") {
+		// the same law where the target buffer ends: with 0..size+1 free bytes a method either appends its
+		// whole encoding (Len and PC advance by the architectural length) or refuses and appends nothing
+		r.Parallel(runtime.NumCPU(), len(methods), func(wi, idx int) {
+			m := methods[idx]
+			g := r.Rand("end").Fork(uint64(idx))
+			cells := map[string]int64{}
+			for flags := byte(0); flags < 0x40; flags += 0x10 {
+				if !guardOKFlags(m.Guard, flags) {
+					continue
+				}
+				for free := 0; free <= m.size()+1; free++ {
+					for rep := 0; rep < 6; rep++ {
+						prefix := []int{0, 1, 7, 100}[g.Intn(4)]
+						listing := g.Intn(3) == 0
+						buf := make([]byte, prefix+free+8)
+						for i := range buf {
+							buf[i] = 0xCC
+						}
+						e := asm.NewEmitter(buf[:prefix+free:prefix+free], listing)
+						if g.Bool() {
+							e.SetBase(uint32(g.Intn(256))<<16 | uint32(g.Intn(0x8000)))
+						}
+						e.AssumeSEP(asm.Flags(flags))
+						if prefix > 0 {
+							e.EmitBytes(g.Bytes(prefix))
+						}
+						if m.Arg == aLabel8 || m.Arg == aLabel16 {
+							e.Label("l0")
+						}
+						arg := g.U32()
+						if m.Arg == aLabel8 || m.Arg == aLabel16 {
+							arg = 0
+						}
+						n0, pc0 := e.Len(), e.PC()
+						p := byte(e.Flags())
+						pan := vf.Try(func() { callMethod(e, m, arg, "l0") })
+						r.Eval(1)
+						dn, dpc := e.Len()-n0, int(e.PC()-pc0)
+						what := fmt.Sprintf("%s($%x) under flags %02x with %d of %d bytes free (Len %d)", m.Name, arg, flags, free, m.size(), n0)
+						switch {
+						case string(buf[prefix+free:]) != "\xcc\xcc\xcc\xcc\xcc\xcc\xcc\xcc":
+							r.Fail("writes-beyond-buffer:"+m.Name, what+": bytes beyond the target buffer were written", nil)
+						case pan != nil && (dn != 0 || dpc != 0):
+							r.Fail("refused-but-advanced:"+m.Name, fmt.Sprintf("%s: refused (%v) but Len advanced by %d and PC by %d", what, pan, dn, dpc), nil)
+						case pan == nil && (dn != m.size() || dpc != m.size()):
+							r.Fail("length-at-buffer-end:"+m.Name, fmt.Sprintf("%s: returned normally, Len advanced by %d and PC by %d, the instruction is %d bytes long", what, dn, dpc, m.size()), nil)
+						case pan == nil && free < m.size():
+							r.Fail("overflow-accepted:"+m.Name, what+": accepted although it does not fit", nil)
+						case pan != nil && free >= m.size():
+							r.Fail("legal-call-refused:"+m.Name, fmt.Sprintf("%s: refused although it fits: %v", what, pan), nil)
+						case pan == nil:
+							got := e.Bytes()[n0:]
+							if got[0] != m.op || len(got) != 1+ref.OperandSize(m.Mode, p) {
+								r.Fail("encoding-at-buffer-end:"+m.Name, fmt.Sprintf("%s: appended % x", what, got), nil)
+							}
+							cells["buffer-end:fits"]++
+						default:
+							cells[fmt.Sprintf("buffer-end:refused:short%d", m.size()-free)]++
+						}
+					}
+				}
+			}
+			r.MergeCells(cells)
+		})
+	}
 	if r.Phase("in-context") {
 		// the same law inside whole call histories: what a call appends must not depend on what was
 		// emitted before it (previous bytes, labels, data blocks, width changes)
